@@ -519,7 +519,7 @@ __gmp_doscan (const struct gmp_doscan_funs_t *funs, void *data,
           int  c;
         literal:
           c = (funs->get) (data);
-          if (c != fchar)
+          if (c != (unsigned char) fchar)
             {
               (funs->unget) (c, data);
               if (c == EOF)
